@@ -186,12 +186,13 @@ def run_check(pid, tier="quick", update_baseline=False, seed=0, verbose=False):
     vanished = sorted(base_set - set(gstatus))
 
     # ---- replay
-    os.makedirs(os.path.join(HERE, "replays", pid), exist_ok=True)
+    rpdir = os.path.join(os.environ.get("PYVC_EVIDENCE_DIR"), "replays") if os.environ.get("PYVC_EVIDENCE_DIR") else os.path.join(HERE, "replays")
+    os.makedirs(os.path.join(rpdir, pid), exist_ok=True)
     violations = []
     for g, s, vs in problems:
         bad = [v for v in vs if v.status not in ("proved", "covered", "unreachable")] or vs
         v0 = bad[0]
-        rp = os.path.join(HERE, "replays", pid, g.replace("/", "_").replace("#", "--").replace("|", "_").replace(" ", "")[:150] + ".json")
+        rp = os.path.join(rpdir, pid, g.replace("/", "_").replace("#", "--").replace("|", "_").replace(" ", "")[:150] + ".json")
         rec = dict(property=pid, obligation=g, status=s, function=v0.vc.fn_key,
                    solver=v0.solver, solver_reason=v0.reason, solver_time=round(v0.time, 3),
                    path_trace=v0.vc.meta.get("trace"), tainted=v0.vc.tainted,
@@ -212,7 +213,7 @@ def run_check(pid, tier="quick", update_baseline=False, seed=0, verbose=False):
         bounded_runs.append(dict(label="bounded (not a proof)", what=meta["bounded_in_quick"], harness=f"replay/{pid}.py",
                                  cases_tried=res.get("tried"), found=bool(found), wall_s=round(time.time() - t0, 1)))
         if found:
-            rp = os.path.join(HERE, "replays", pid, "bounded-stand-in.json")
+            rp = os.path.join(rpdir, pid, "bounded-stand-in.json")
             with open(rp, "w") as f:
                 json.dump(dict(property=pid, obligation="bounded stand-in: " + meta["bounded_in_quick"], replay=res, repo=repo_root()), f, indent=1, default=str)
             violations.append(("bounded stand-in: " + meta["bounded_in_quick"], rp, True))
@@ -266,8 +267,10 @@ def run_check(pid, tier="quick", update_baseline=False, seed=0, verbose=False):
         wall_s=round(time.time() - t00, 3),
         violations=len(violations),
     )
-    os.makedirs(os.path.join(HERE, "evidence"), exist_ok=True)
-    with open(os.path.join(HERE, "evidence", f"{pid}.json"), "w") as f:
+    # (self-tests on scratch copies of the repository write their evidence elsewhere: the committed evidence is always /repo's)
+    evdir = os.environ.get("PYVC_EVIDENCE_DIR") or os.path.join(HERE, "evidence")
+    os.makedirs(evdir, exist_ok=True)
+    with open(os.path.join(evdir, f"{pid}.json"), "w") as f:
         json.dump(ev, f, indent=1, default=str)
 
     # ---- report
